@@ -210,10 +210,23 @@ def split_items(body, derive):
 # Coq
 
 
+TRANSLATOR_ERRORS = []
+
+
 def regen_generated():
-    """translators: regenerate the data files of the model from /repo"""
-    t = gen_tables.generate(REPO)
+    """translators: regenerate the data files of the model from /repo.  If the source no longer
+    has the shape a translator expects, the error is recorded (the check reports the broken
+    tie) and the last generated file is kept so that the rest of the check can still run."""
     p = os.path.join(COQ, "theories/Model/Tables.v")
+    try:
+        t = gen_tables.generate(REPO)
+    except Exception as e:  # TranslatorError or a parse problem
+        msg = "gen_tables: %s" % e
+        if msg not in TRANSLATOR_ERRORS:
+            TRANSLATOR_ERRORS.append(msg)
+        if not os.path.exists(p):
+            raise TieBroken(msg)
+        return
     if not os.path.exists(p) or open(p).read() != t:
         with open(p, "w") as f:
             f.write(t)
@@ -354,7 +367,10 @@ def tables():
     """keyword tables regenerated from the source (the names the real emitters escape)"""
     global _tables
     if _tables is None:
-        t = gen_tables.generate(REPO)
+        try:
+            t = gen_tables.generate(REPO)
+        except Exception:
+            t = open(os.path.join(COQ, "theories/Model/Tables.v")).read()
         kw = re.search(r'Definition safe_keywords : list string := \[(.*?)\]\.', t).group(1)
         _tables = {"safe_keywords": re.findall(r'"([^"]*)"', kw)}
     return _tables
@@ -731,8 +747,16 @@ def k3_show(ast, kind, off, hx, tag="show"):
 
 def regen_grammar():
     import gen_grammar
-    t = gen_grammar.generate(REPO)
     p = os.path.join(COQ, "theories/Model/Grammar.v")
+    try:
+        t = gen_grammar.generate(REPO)
+    except Exception as e:
+        msg = "gen_grammar: %s" % e
+        if msg not in TRANSLATOR_ERRORS:
+            TRANSLATOR_ERRORS.append(msg)
+        if not os.path.exists(p):
+            raise TieBroken(msg)
+        return
     if not os.path.exists(p) or open(p).read() != t:
         with open(p, "w") as f:
             f.write(t)
